@@ -28,6 +28,12 @@ def monitor(case, line):
                     "becomes due during a timer pass has to wait for the next iteration" % tok[9:])
         if tok.startswith("!twice"):
             return "timer %s fired twice without a poll phase (or a new uv_run) in between" % tok[6:]
+        if tok.startswith("!overdue"):
+            return ("timer %s was armed before the last check/close/poll-phase callback of the iteration ended and was due by "
+                    "then, but the timer phase of that iteration did not fire it (the loop's time was not refreshed "
+                    "before the timers ran)" % tok[8:])
+        if tok.startswith("!nowdec"):
+            return "uv_now() went backwards: %s then %s" % tuple(tok[7:].split(","))
         if tok == "!drainhang":
             return ("after uv_close() on every handle uv_run(UV_RUN_DEFAULT) did not return within 4000 poll phases: "
                     "the loop stays alive (or a closed handle keeps firing)")
